@@ -1056,6 +1056,9 @@ impl TensorChain {
             .with_state_root(state_root)
             .sign_and_build(&self.identity);
 
+        #[cfg(neumann_verif)]
+        tensor_store::verif_hook::point("chain.commit.before_append");
+
         match self.chain.append(block) {
             Ok(hash) => {
                 workspace.mark_committed();
